@@ -438,6 +438,60 @@ pub fn record(args: &Args) {
         return;
     }
 
+    if mode == "sweep-bounded" {
+        // C16, both edges of the contract: for (expression, instant) pairs the exact distance D to the next change is measured
+        // without a bound, then the bounded evaluator is asked with bounds straddling D (must answer none above B) and
+        // D + 24 h (must be exact up to B - 24 h), plus fractional-day and half / double bounds
+        const FAMILY: &[&str] = &[
+            "Mo 10:00-12:00", "Mo-Fr 09:00-17:00", "Sa 22:00-26:00", "Mo,Th 08:00-12:00,14:00-18:00", "Jan", "Nov-Feb", "week 10", "week 1-53/2",
+            "2030", "Mo[1] 10:00-12:00", "Fr[-1]", "Dec 25-Jan 5", "easter", "Jan 1", "Feb 29", "PH", "Mo-Fr 10:00-18:00 || unknown",
+            "24/7 ; Su 10:00-16:00", "Jun 10:00-12:00 ; Jul off", "Mo 00:00-24:00", "2025 Feb 21-easter", "sunrise-sunset",
+        ];
+        let every = args.get_u64("every", 1) as usize;
+        let (part, parts) = (args.get_u64("part", 0) as usize, args.get_u64("parts", 1) as usize);
+        let mut k = seed as usize;
+
+        for (idx, src) in FAMILY.iter().enumerate() {
+            if idx % parts != part {
+                continue;
+            }
+            let Ok(Ok(parsed)) = guarded(|| opening_hours_syntax::parse(src)) else { continue };
+            let ctx = if src.contains("PH") { Ctx::random(&mut rng) } else { Ctx::plain() };
+            let Ok(Ok(oh)) = guarded(|| OpeningHours::parse(src)) else { continue };
+            let oh = oh.with_context(ctx.context());
+            let expr_json = astjson::expr(&parsed);
+            let crit: Vec<i64> = critical(&parsed, &ctx).into_iter().filter(|d| (17_000..24_000).contains(d)).collect();
+
+            for day in crit {
+                for sec in [0u32, 35_940, 46_800, 72_000, 86_370] {
+                    k += 1;
+                    if k % every != 0 {
+                        continue;
+                    }
+                    let t = datetime(day, sec);
+                    let Ok(Some(nc)) = guarded(|| oh.next_change(t)) else { continue };
+                    let d = nc - t;
+                    if d > Duration::days(800) {
+                        continue;
+                    }
+                    let m = Duration::minutes(1);
+                    let h24 = Duration::hours(24);
+                    for b in [d - m, d, d + m, d + h24 - m, d + h24, d + h24 + m, d / 2, d * 2, Duration::hours(36), d + Duration::hours(13)] {
+                        if b < m {
+                            continue;
+                        }
+                        if let Some(mut ev) = point_event(id + 1, src, &oh, &ctx, t, Some(b), &lim) {
+                            id += 1;
+                            ev["expr"] = expr_json.clone();
+                            println!("{ev}");
+                        }
+                    }
+                }
+            }
+        }
+        return;
+    }
+
     if mode == "sweep-range" || mode == "sweep-point" {
         // every expression of the hint-branch family x its critical dates (every `every`-th one, rotating with the
         // seed), with the long limits: open-ended streams / next_change whose changes may be many years apart
